@@ -18,6 +18,6 @@ def run(ctx):
     )
     r.not_decided = ["a single module whose start overhang is its own reverse complement (the property text does not settle the expected outcome)",
                      "equality of overhangs differing in case (C18)"]
-    run_kernels(ctx, ["K0", "K15", "K14"], "C03")
+    run_kernels(ctx, ["K0", "K15", "K14", "K10", "K1"], "C03")
     k17_entry(ctx, "C03")
     order_independence_rule(ctx, "C03.order-independence")
